@@ -633,7 +633,17 @@ func runTimed(tag string, o instOpts, prep func(in *inst), steps []step) {
 				if strings.HasPrefix(in.name, "p-ecs") && st.n > 1 { // hits from eight subnets (one client group)
 					src = fmt.Sprintf("127.0.%d.1", 1+i%8)
 				}
-				in.send([]string{"udp", "tcp"}[i%2], src, mkq(st.name), 8*time.Second, nil)
+				name := st.name
+				if strings.HasPrefix(in.name, "p-case") && st.n > 1 { // every hit spells the name in its own way (0x20)
+					b := []byte(name)
+					for k := range b {
+						if b[k] >= 'a' && b[k] <= 'z' && (i>>(uint(k)%5))&1 == 1 {
+							b[k] -= 32
+						}
+					}
+					name = string(b)
+				}
+				in.send([]string{"udp", "tcp"}[i%2], src, mkq(name), 8*time.Second, nil)
 			})
 		}()
 	}
@@ -781,6 +791,12 @@ func modeC08(thorough bool, only string) {
 			pe := n("r0t8d0")
 			add("p-ecs", eo, func(in *inst) { in.ups["u1"].setSeq(pe, "r0t8d0", "r0t8d900") },
 				step{0, 1, pe}, step{ms(6300), 16, pe}, step{ms(6500), 8, pe}, step{ms(7400), 2, pe})
+		}
+		// hits that spell the name in different letter cases are hits of one entry: one refresh
+		{
+			pc := n("r0t8d0")
+			add("p-case", base, func(in *inst) { in.ups["u1"].setSeq(pc, "r0t8d0", "r0t8d900") },
+				step{0, 1, pc}, step{ms(6300), 16, pc}, step{ms(6500), 8, pc}, step{ms(7400), 2, pc})
 		}
 		// the refresh exchange itself fails (undecodable reply / connection closed): the old entry stays usable
 		for i, rc := range []string{"r0t8d0fG", "r0t8d0fC"} {
